@@ -696,22 +696,45 @@ theorem c07_toSystem_agree (ev : Ev S B) (hev : EvTables ev) (zeroF : S) (v : Ve
   show Le _ _
   unfold toSystem nbToSystem
   refine Le.bind _ _ _ _ (Le.mapM _ _ (fun n => hg _) _) (fun azv => ?_)
-  refine Le.bind _ _ _ _ ?_ (fun lonv => ?_)
-  · cases lon with
-    | none => exact Le.rfl' _
-    | some l =>
-      simp only []
-      split
-      · exact Le.bind _ _ _ _ (hg _) (fun _ => Le.rfl' _)
-      · exact Le.rfl' _
-  refine Le.bind _ _ _ _ ?_ (fun tmpv => Le.rfl' _)
-  cases tmp with
-  | none => exact Le.rfl' _
-  | some t =>
-    simp only []
-    split
-    · exact Le.bind _ _ _ _ (hg _) (fun _ => Le.rfl' _)
-    · exact Le.rfl' _
+  by_cases h3 : v.ty.dim ≥ 3 <;> by_cases h4 : v.ty.dim ≥ 4 <;> cases lon <;> cases tmp <;>
+    simp only [h3, h4, if_true, if_false] <;>
+    repeat (first | exact Le.rfl' _ | exact hg _ | refine Le.bind _ _ _ _ ?_ (fun _ => ?_))
+
+/-- the 20 coordinate changes numba defines, spelled out -/
+def c07_toNames : List (String × Az × Option Lon × Option Tmp) :=
+  [("to_xy", .xy, none, none), ("to_rhophi", .rhophi, none, none), ("to_xyz", .xy, some .z, none),
+   ("to_xytheta", .xy, some .theta, none), ("to_xyeta", .xy, some .eta, none), ("to_rhophiz", .rhophi, some .z, none),
+   ("to_rhophitheta", .rhophi, some .theta, none), ("to_rhophieta", .rhophi, some .eta, none), ("to_xyzt", .xy, some .z, some .t),
+   ("to_xyztau", .xy, some .z, some .tau), ("to_xythetat", .xy, some .theta, some .t), ("to_xythetatau", .xy, some .theta, some .tau),
+   ("to_xyetat", .xy, some .eta, some .t), ("to_xyetatau", .xy, some .eta, some .tau), ("to_rhophizt", .rhophi, some .z, some .t),
+   ("to_rhophiztau", .rhophi, some .z, some .tau), ("to_rhophithetat", .rhophi, some .theta, some .t), ("to_rhophithetatau", .rhophi, some .theta, some .tau),
+   ("to_rhophietat", .rhophi, some .eta, some .t), ("to_rhophietatau", .rhophi, some .eta, some .tau)]
+
+theorem c07_nbToTable_eq : nbToTable = c07_toNames := by decide
+
+private theorem to_step (ev : Ev S B) (hev : EvTables ev) (K : Consts S) (self : Vec S) (r : Res S B)
+    (hbe : self.ty.be = .obj) (az : Az) (lon : Option Lon) (tmp : Option Tmp) (c n : Except Err (Res S B))
+    (hc : c = (toSystem ev K.zeroF self az lon tmp none none).map .vec)
+    (hn : n = if nbGuard self [] = true then .error .unmodelled else (nbToSystem ev K.zeroF self az lon tmp).map .vec)
+    (h : c = .ok r) : n = .ok r := by
+  rw [hn, nbGuard_nil self hbe]
+  rw [hc] at h
+  cases ht : toSystem ev K.zeroF self az lon tmp none none with
+  | error e => rw [ht] at h; cases h
+  | ok w =>
+    rw [ht] at h
+    simp only [Bool.false_eq_true, if_false]
+    rw [c07_toSystem_agree ev hev K.zeroF self az lon tmp w ht]
+    exact h
+
+/-- string level: `to_xy`, `to_rhophi`, `to_xyz`, …, `to_rhophietatau` without arguments -/
+theorem c07_to_agree (ev : Ev S B) (hev : EvTables ev) (K : Consts S) (A : Arith S) (self : Vec S) (r : Res S B)
+    (hbe : self.ty.be = .obj) (e : String × Az × Option Lon × Option Tmp) (he : e ∈ nbToTable)
+    (h : call ev K A e.1 self [] = .ok r) : numbaCall ev K A e.1 self [] = .ok r := by
+  rw [c07_nbToTable_eq] at he
+  unfold c07_toNames at he
+  each_mem he
+  all_goals exact to_step ev hev K self r hbe _ _ _ _ _ rfl rfl h
 
 end
 end VG
